@@ -630,6 +630,778 @@ theorem pcomp_reconstructs (sqrt : K → K) (eigh : Mat K → Eig K) (argsort : 
 
 end
 
+/-! ## Extension round -/
+section Ext
+variable {K : Type} [Field K] [LinearOrder K] [IsStrictOrderedRing K] [FloorRing K]
+attribute [local instance] fieldScalar
+attribute [-instance] Scalar.instOfNat Scalar.instOfScientific
+
+/-! ### computechi2: the number `chi2` and the optimum -/
+
+/-- PROPERTY. computechi2: the returned `chi2` IS the weighted chi-square `Q` evaluated at the returned
+coefficients and `yfit = A · acoeff` (both unconditionally); under the full-rank contract `mm · mmi = 1`
+it is therefore the minimum value: `chi2 ≤ Q z` for every coefficient vector `z`. -/
+theorem chi2_is_min_value (svd : Mat K → Svd K) (n m : ℕ) (b sq : ℕ → K) (A : ℕ → ℕ → K) :
+    (computechi2 svd n m b sq A).chi2 =
+      Q (fun (i : Fin n) (k : Fin m) => A i k) (fun i => sq i * sq i) (fun i => b i)
+        (fun k => vget (computechi2 svd n m b sq A).acoeff k) ∧
+    (∀ i : Fin n, vget (computechi2 svd n m b sq A).yfit i
+      = ∑ k : Fin m, A i k * vget (computechi2 svd n m b sq A).acoeff k) ∧
+    (MulEqOne m (computechi2 svd n m b sq A).mm (computechi2 svd n m b sq A).mmi →
+      ∀ z : Fin m → K, (computechi2 svd n m b sq A).chi2
+        ≤ Q (fun (i : Fin n) (k : Fin m) => A i k) (fun i => sq i * sq i) (fun i => b i) z) := by
+  have hchi : (computechi2 svd n m b sq A).chi2 =
+      Q (fun (i : Fin n) (k : Fin m) => A i k) (fun i => sq i * sq i) (fun i => b i)
+        (fun k => vget (computechi2 svd n m b sq A).acoeff k) := by
+    rw [chi2_chi2]
+    unfold Q
+    apply Finset.sum_congr rfl
+    intro i _
+    have : ∑ k : Fin m, (A i k * sq i) * vget (computechi2 svd n m b sq A).acoeff k
+        = sq i * ∑ k : Fin m, A i k * vget (computechi2 svd n m b sq A).acoeff k := by
+      rw [Finset.mul_sum]; apply Finset.sum_congr rfl; intros; ring
+    rw [this]; ring
+  refine ⟨hchi, chi2_yfit svd n m b sq A, fun hinv z => ?_⟩
+  rw [hchi]
+  exact (chi2_optimum svd n m b sq A hinv).2.1 z
+
+/-- PROPERTY. computechi2 with a one-dimensional `amatrix` (one template `a`): under the same contract the single
+coefficient satisfies `Σ w a (b - a x) = 0`, minimises `Σ w (b - a x)²` over all `x`, `chi2` is that minimum,
+`yfit = a · x` and `dof = #{sqivar > 0} - 1`. -/
+theorem chi2_vec_optimum (svd : Mat K → Svd K) (n : ℕ) (b sq a : ℕ → K)
+    (hinv : MulEqOne 1 (computechi2Vec svd n b sq a).mm (computechi2Vec svd n b sq a).mmi) :
+    (∑ i : Fin n, sq i * sq i * a i * (b i - a i * vget (computechi2Vec svd n b sq a).acoeff 0) = 0) ∧
+    (∀ x : K, (computechi2Vec svd n b sq a).chi2 ≤ ∑ i : Fin n, sq i * sq i * (b i - a i * x) ^ 2) ∧
+    ((computechi2Vec svd n b sq a).chi2
+      = ∑ i : Fin n, sq i * sq i * (b i - a i * vget (computechi2Vec svd n b sq a).acoeff 0) ^ 2) ∧
+    (∀ i : Fin n, vget (computechi2Vec svd n b sq a).yfit i = a i * vget (computechi2Vec svd n b sq a).acoeff 0) ∧
+    (computechi2Vec svd n b sq a).dof = (((range n).filter (fun i => 0 < sq i)).card : ℤ) - 1 := by
+  unfold computechi2Vec at hinv ⊢
+  obtain ⟨hN, hopt, hchi, hy⟩ := chi2_optimum svd n 1 b sq (fun i _ => a i) hinv
+  refine ⟨?_, ?_, ?_, ?_, ?_⟩
+  · have := hN 0
+    simpa [Fin.sum_univ_one] using this
+  · intro x
+    rw [hchi]
+    have := hopt (fun _ => x)
+    simpa [Q, Fin.sum_univ_one] using this
+  · rw [hchi]; simp [Q, Fin.sum_univ_one]
+  · intro i; rw [hy i]; simp [Fin.sum_univ_one]
+  · rw [dof_count]; simp
+
+/-! ### HMF: one whole sweep of `iterate` -/
+
+/-- `iterate` IS: start state, then `nIter` sweeps (`sweepSigned` in the default, `sweepNN` in non-negative mode) -/
+theorem iterate_is_sweeps {α : Type} [Scalar α] (sqrt : α → α) (solve : Mat α → Vec α → Vec α) (eigh : Mat α → Eig α)
+    (N M Kc nIter nnPre : ℕ) (s0 w g0 : ℕ → ℕ → α) (nonneg : Bool) (eps : Option α) :
+    iterate sqrt solve eigh N M Kc nIter nnPre s0 w g0 nonneg eps
+      = iterN nIter (if nonneg then sweepNN sqrt N M Kc (mget (iterateSpectra N M s0 nonneg)) w eps
+                     else sweepSigned sqrt solve eigh N M Kc (mget (iterateSpectra N M s0 nonneg)) w eps)
+          (iterateStart sqrt N M Kc nnPre s0 w g0 nonneg) := by
+  cases nonneg <;> rfl
+
+theorem badness_congr_model (sqrt : K → K) (N M Kc : ℕ) (s w a g a' g' : ℕ → ℕ → K) (eps : Option K)
+    (heps : eps = none ∨ eps = some 0)
+    (h : ∀ (i : Fin N) (j : Fin M), hmfModel Kc a' g' i j = hmfModel Kc a g i j) :
+    badness sqrt N M Kc s w a' g' eps = badness sqrt N M Kc s w a g eps := by
+  simp only [badness, penalty_zero Kc M _ eps heps, sumN_fin]
+  congr 1
+  apply Finset.sum_congr rfl; intro i _
+  apply Finset.sum_congr rfl; intro j _
+  rw [h i j]
+
+/-- the normalisation `g /= normbase`, `a *= normbase` rescales the factors inversely: `a · g` is unchanged
+(no component with zero rms) -/
+theorem renorm_preserves_model (sqrt : K → K) (N M Kc : ℕ) (a g : ℕ → ℕ → K)
+    (hnz : ∀ k : Fin Kc, vget (normbase sqrt Kc M g) k ≠ 0) (i : Fin N) (j : Fin M) :
+    hmfModel Kc (mget (renorm sqrt N M Kc a g).1) (mget (renorm sqrt N M Kc a g).2) i j = hmfModel Kc a g i j := by
+  simp only [renorm, hmfModel, sumN_fin, mget_mtab_fin]
+  apply Finset.sum_congr rfl; intro k _
+  have := hnz k
+  field_simp
+
+/-- the contracts one sweep needs at the state `(a, g)`: every linear solve of the a-step (systems built from `g`)
+and of the g-step (systems built from the new `a`) returns a solution, `eigh` returns an orthogonal matrix,
+no rotated component has zero rms -/
+structure SweepOK (sqrt : K → K) (solve : Mat K → Vec K → Vec K) (eigh : Mat K → Eig K) (N M Kc : ℕ)
+    (s w : ℕ → ℕ → K) (eps : Option K) (ag : Mat K × Mat K) : Prop where
+  asolve : ∀ i : Fin N, Solves Kc (astepMat M Kc w (mget ag.2) i) (astepRhs M Kc s w (mget ag.2) i)
+    (solve (astepMat M Kc w (mget ag.2) i) (astepRhs M Kc s w (mget ag.2) i))
+  gsolve : ∀ j : Fin M, Solves Kc (gstepMat N M Kc w (mget (astep solve N M Kc s w (mget ag.2))) eps j)
+    (gstepRhs N M Kc s w (mget (astep solve N M Kc s w (mget ag.2))) (mget ag.2) eps j)
+    (solve (gstepMat N M Kc w (mget (astep solve N M Kc s w (mget ag.2))) eps j)
+      (gstepRhs N M Kc s w (mget (astep solve N M Kc s w (mget ag.2))) (mget ag.2) eps j))
+  orth : ∀ l l' : Fin Kc,
+    ∑ k : Fin Kc, mget (eigh (ataMat N Kc (mget (astep solve N M Kc s w (mget ag.2))))).evecs l k *
+      mget (eigh (ataMat N Kc (mget (astep solve N M Kc s w (mget ag.2))))).evecs l' k = if l = l' then 1 else 0
+  rms : ∀ k : Fin Kc, vget (normbase sqrt Kc M (mget (reorder eigh N M Kc
+      (mget (astep solve N M Kc s w (mget ag.2)))
+      (mget (gstep solve N M Kc s w (mget (astep solve N M Kc s w (mget ag.2))) (mget ag.2) eps))).2)) k ≠ 0
+
+/-- PROPERTY. HMF, "chi-square never increases", as ONE statement about a whole sweep of `iterate` in the default
+mode with epsilon None or 0 (`astep; gstep; reorder; renormalise`): for EVERY state `(a, g)` at which the kernel
+contracts hold, `badness(sweep(a, g)) ≤ badness(a, g)`.  The a-step and the g-step each reach the optimum in their
+factor (`astep_optimum`, `gstep_optimum`); `reorder` and the unit-rms normalisation leave the model `a·g`, hence
+badness, unchanged (`reorder_preserves_model`, `renorm_preserves_model`: `a` and `g` are rescaled inversely). -/
+theorem sweep_badness_le (sqrt : K → K) (solve : Mat K → Vec K → Vec K) (eigh : Mat K → Eig K) (N M Kc : ℕ)
+    (s w : ℕ → ℕ → K) (eps : Option K) (heps : eps = none ∨ eps = some 0)
+    (hw : ∀ i j, 0 ≤ w i j) (hsq : ∀ i j, sqrt (w i j) * sqrt (w i j) = w i j)
+    (ag : Mat K × Mat K) (ok : SweepOK sqrt solve eigh N M Kc s w eps ag) :
+    badness sqrt N M Kc s w (mget (sweepSigned sqrt solve eigh N M Kc s w eps ag).1)
+        (mget (sweepSigned sqrt solve eigh N M Kc s w eps ag).2) eps
+      ≤ badness sqrt N M Kc s w (mget ag.1) (mget ag.2) eps := by
+  have h1 := (astep_optimum sqrt solve N M Kc s w (mget ag.2) eps hw hsq ok.asolve).2.2 (mget ag.1)
+  have h2 := (gstep_optimum sqrt solve N M Kc s w (mget (astep solve N M Kc s w (mget ag.2))) (mget ag.2) eps heps
+    hw hsq ok.gsolve).2.2 (mget ag.2)
+  have h3 : badness sqrt N M Kc s w (mget (sweepSigned sqrt solve eigh N M Kc s w eps ag).1)
+        (mget (sweepSigned sqrt solve eigh N M Kc s w eps ag).2) eps
+      = badness sqrt N M Kc s w (mget (astep solve N M Kc s w (mget ag.2)))
+          (mget (gstep solve N M Kc s w (mget (astep solve N M Kc s w (mget ag.2))) (mget ag.2) eps)) eps := by
+    apply badness_congr_model sqrt N M Kc s w _ _ _ _ eps heps
+    intro i j
+    simp only [sweepSigned]
+    rw [renorm_preserves_model sqrt N M Kc _ _ ok.rms i j]
+    exact reorder_preserves_model eigh N M Kc _ _ ok.orth i j
+  linarith
+
+theorem iterN_succ' {β : Type} (n : ℕ) (f : β → β) (x : β) : iterN (n + 1) f x = f (iterN n f x) := by
+  induction n generalizing x with
+  | zero => rfl
+  | succ n ih => rw [iterN, ih (f x)]; rfl
+
+/-- PROPERTY. HMF: along the whole loop of `iterate` (default mode, epsilon None/0) badness is non-increasing from
+sweep to sweep, hence never above its value at the start, as long as the kernel contracts hold at the visited states. -/
+theorem iterate_badness_antitone (sqrt : K → K) (solve : Mat K → Vec K → Vec K) (eigh : Mat K → Eig K) (N M Kc : ℕ)
+    (s w : ℕ → ℕ → K) (eps : Option K) (heps : eps = none ∨ eps = some 0)
+    (hw : ∀ i j, 0 ≤ w i j) (hsq : ∀ i j, sqrt (w i j) * sqrt (w i j) = w i j)
+    (start : Mat K × Mat K) (nIter : ℕ)
+    (ok : ∀ t < nIter, SweepOK sqrt solve eigh N M Kc s w eps
+      (iterN t (sweepSigned sqrt solve eigh N M Kc s w eps) start)) :
+    (∀ t < nIter,
+      badness sqrt N M Kc s w (mget (iterN (t + 1) (sweepSigned sqrt solve eigh N M Kc s w eps) start).1)
+          (mget (iterN (t + 1) (sweepSigned sqrt solve eigh N M Kc s w eps) start).2) eps
+        ≤ badness sqrt N M Kc s w (mget (iterN t (sweepSigned sqrt solve eigh N M Kc s w eps) start).1)
+          (mget (iterN t (sweepSigned sqrt solve eigh N M Kc s w eps) start).2) eps) ∧
+    badness sqrt N M Kc s w (mget (iterN nIter (sweepSigned sqrt solve eigh N M Kc s w eps) start).1)
+        (mget (iterN nIter (sweepSigned sqrt solve eigh N M Kc s w eps) start).2) eps
+      ≤ badness sqrt N M Kc s w (mget start.1) (mget start.2) eps := by
+  have step : ∀ t < nIter,
+      badness sqrt N M Kc s w (mget (iterN (t + 1) (sweepSigned sqrt solve eigh N M Kc s w eps) start).1)
+          (mget (iterN (t + 1) (sweepSigned sqrt solve eigh N M Kc s w eps) start).2) eps
+        ≤ badness sqrt N M Kc s w (mget (iterN t (sweepSigned sqrt solve eigh N M Kc s w eps) start).1)
+          (mget (iterN t (sweepSigned sqrt solve eigh N M Kc s w eps) start).2) eps := by
+    intro t ht
+    rw [iterN_succ']
+    exact sweep_badness_le sqrt solve eigh N M Kc s w eps heps hw hsq _ (ok t ht)
+  refine ⟨step, ?_⟩
+  clear ok
+  induction nIter with
+  | zero => exact le_refl _
+  | succ n ih =>
+    exact le_trans (step n (Nat.lt_succ_self n)) (ih (fun t ht => step t (Nat.lt_succ_of_lt ht)))
+
+/-! ### HMF: the gradient of badness vanishes after a step -/
+
+/-- along a coordinate line the weighted chi-square is the quadratic `Q c + t·(∂Q/∂c_k) + t²·curvature`
+with `∂Q/∂c_k = -2 Σ_i w_i A_ik (y_i - (A c)_i)` -/
+theorem Q_line {n m : ℕ} (A : Fin n → Fin m → K) (w y : Fin n → K) (c : Fin m → K) (k : Fin m) (t : K) :
+    Q A w y (fun j => if j = k then c j + t else c j)
+      = Q A w y c + t * (-2 * ∑ i, w i * A i k * (y i - ∑ j, A i j * c j)) + t ^ 2 * ∑ i, w i * A i k ^ 2 := by
+  rw [Q_expand A w y c]
+  have h1 : ∀ i, ∑ j, A i j * (c j - (if j = k then c j + t else c j)) = -t * A i k := by
+    intro i
+    have e : ∀ j, A i j * (c j - (if j = k then c j + t else c j)) = if j = k then -t * A i j else 0 := by
+      intro j; split_ifs <;> ring
+    simp_rw [e]
+    simp
+  have h2 : ∑ k', (c k' - (if k' = k then c k' + t else c k')) * ∑ i, w i * A i k' * (y i - ∑ j, A i j * c j)
+      = -t * ∑ i, w i * A i k * (y i - ∑ j, A i j * c j) := by
+    have e : ∀ k', (c k' - (if k' = k then c k' + t else c k')) * ∑ i, w i * A i k' * (y i - ∑ j, A i j * c j)
+        = if k' = k then -t * ∑ i, w i * A i k' * (y i - ∑ j, A i j * c j) else 0 := by
+      intro k'; split_ifs <;> ring
+    simp_rw [e]
+    simp
+  simp_rw [h1]
+  rw [h2]
+  have h3 : ∑ i, w i * (-t * A i k) ^ 2 = t ^ 2 * ∑ i, w i * A i k ^ 2 := by
+    rw [Finset.mul_sum]; apply Finset.sum_congr rfl; intros; ring
+  rw [h3]; ring
+
+/-- the partial derivative of badness with respect to the coefficient `a[i,k]` -/
+def gradA (M Kc : ℕ) (s w a g : ℕ → ℕ → K) (i k : ℕ) : K :=
+  -2 * ∑ j : Fin M, w i j * g k j * (s i j - ∑ l : Fin Kc, g l j * a i l)
+
+/-- the partial derivative of the chi-square part of badness with respect to the component value `g[k,j]` -/
+def gradG (N Kc : ℕ) (s w a g : ℕ → ℕ → K) (k j : ℕ) : K :=
+  -2 * ∑ i : Fin N, w i j * a i k * (s i j - ∑ l : Fin Kc, a i l * g l j)
+
+/-- badness along the coordinate line `a[i,k] + t` is exactly `badness + t·gradA + t²·curvature`: `gradA` is the
+partial derivative (any epsilon: the penalty does not depend on `a`) -/
+theorem badness_line_a (sqrt : K → K) (N M Kc : ℕ) (s w a g : ℕ → ℕ → K) (eps : Option K)
+    (hsq : ∀ i j, sqrt (w i j) * sqrt (w i j) = w i j) (i : Fin N) (k : Fin Kc) (t : K) :
+    badness sqrt N M Kc s w (fun i' k' => if i' = (i : ℕ) ∧ k' = (k : ℕ) then a i' k' + t else a i' k') g eps
+      = badness sqrt N M Kc s w a g eps + t * gradA M Kc s w a g i k + t ^ 2 * ∑ j : Fin M, w i j * g k j ^ 2 := by
+  rw [badness_rows sqrt N M Kc s w _ g eps hsq, badness_rows sqrt N M Kc s w a g eps hsq]
+  have hrow : ∀ i' : Fin N,
+      Q (fun (j : Fin M) (k : Fin Kc) => g k j) (fun j => w i' j) (fun j => s i' j)
+        (fun k' : Fin Kc => if (i' : ℕ) = (i : ℕ) ∧ (k' : ℕ) = (k : ℕ) then a i' k' + t else a i' k')
+      = Q (fun (j : Fin M) (k : Fin Kc) => g k j) (fun j => w i' j) (fun j => s i' j) (fun k' : Fin Kc => a i' k')
+        + (if i' = i then t * gradA M Kc s w a g i k + t ^ 2 * ∑ j : Fin M, w i j * g k j ^ 2 else 0) := by
+    intro i'
+    by_cases h : i' = i
+    · subst h
+      simp only [true_and, if_true, Fin.val_inj]
+      rw [Q_line]; unfold gradA; ring
+    · have hne : ¬ ((i' : ℕ) = (i : ℕ)) := fun e => h (Fin.ext e)
+      simp only [hne, false_and, if_false, h, add_zero]
+  simp_rw [hrow]
+  rw [Finset.sum_add_distrib, Finset.sum_ite_eq' Finset.univ i]
+  simp only [Finset.mem_univ, if_true]
+  ring
+
+/-- badness along the coordinate line `g[k,j] + t` (epsilon None or 0) -/
+theorem badness_line_g (sqrt : K → K) (N M Kc : ℕ) (s w a g : ℕ → ℕ → K) (eps : Option K)
+    (heps : eps = none ∨ eps = some 0)
+    (hsq : ∀ i j, sqrt (w i j) * sqrt (w i j) = w i j) (k : Fin Kc) (j : Fin M) (t : K) :
+    badness sqrt N M Kc s w a (fun k' j' => if k' = (k : ℕ) ∧ j' = (j : ℕ) then g k' j' + t else g k' j') eps
+      = badness sqrt N M Kc s w a g eps + t * gradG N Kc s w a g k j + t ^ 2 * ∑ i : Fin N, w i j * a i k ^ 2 := by
+  rw [badness_cols sqrt N M Kc s w a _ eps hsq, badness_cols sqrt N M Kc s w a g eps hsq,
+    penalty_zero Kc M _ eps heps, penalty_zero Kc M g eps heps]
+  have hcol : ∀ j' : Fin M,
+      Q (fun (i : Fin N) (k : Fin Kc) => a i k) (fun i => w i j') (fun i => s i j')
+        (fun k' : Fin Kc => if (k' : ℕ) = (k : ℕ) ∧ (j' : ℕ) = (j : ℕ) then g k' j' + t else g k' j')
+      = Q (fun (i : Fin N) (k : Fin Kc) => a i k) (fun i => w i j') (fun i => s i j') (fun k' : Fin Kc => g k' j')
+        + (if j' = j then t * gradG N Kc s w a g k j + t ^ 2 * ∑ i : Fin N, w i j * a i k ^ 2 else 0) := by
+    intro j'
+    by_cases h : j' = j
+    · subst h
+      simp only [and_true, if_true, Fin.val_inj]
+      rw [Q_line]; unfold gradG; ring
+    · have hne : ¬ ((j' : ℕ) = (j : ℕ)) := fun e => h (Fin.ext e)
+      simp only [hne, and_false, if_false, h, add_zero]
+  simp_rw [hcol]
+  rw [Finset.sum_add_distrib, Finset.sum_ite_eq' Finset.univ j]
+  simp only [Finset.mem_univ, if_true]
+  ring
+
+/-- PROPERTY. HMF "gradient vanishes" after an a-step: `gradA` is the partial derivative of badness in `a[i,k]`
+(badness along the line `a[i,k] + t` is `badness + t·gradA + t²·Σ_j w_ij g_kj²`, for every state and epsilon), and at
+the coefficients returned by `astep` every partial derivative is 0, so the linear term is absent there. -/
+theorem astep_gradient_vanishes (sqrt : K → K) (solve : Mat K → Vec K → Vec K) (N M Kc : ℕ) (s w g : ℕ → ℕ → K)
+    (eps : Option K) (hw : ∀ i j, 0 ≤ w i j) (hsq : ∀ i j, sqrt (w i j) * sqrt (w i j) = w i j)
+    (hsolve : ∀ i : Fin N, Solves Kc (astepMat M Kc w g i) (astepRhs M Kc s w g i)
+      (solve (astepMat M Kc w g i) (astepRhs M Kc s w g i))) :
+    (∀ (a : ℕ → ℕ → K) (i : Fin N) (k : Fin Kc) (t : K),
+      badness sqrt N M Kc s w (fun i' k' => if i' = (i : ℕ) ∧ k' = (k : ℕ) then a i' k' + t else a i' k') g eps
+        = badness sqrt N M Kc s w a g eps + t * gradA M Kc s w a g i k + t ^ 2 * ∑ j : Fin M, w i j * g k j ^ 2) ∧
+    (∀ (i : Fin N) (k : Fin Kc), gradA M Kc s w (mget (astep solve N M Kc s w g)) g i k = 0) ∧
+    (∀ (i : Fin N) (k : Fin Kc) (t : K),
+      badness sqrt N M Kc s w (fun i' k' => if i' = (i : ℕ) ∧ k' = (k : ℕ)
+          then mget (astep solve N M Kc s w g) i' k' + t else mget (astep solve N M Kc s w g) i' k') g eps
+        = badness sqrt N M Kc s w (mget (astep solve N M Kc s w g)) g eps + t ^ 2 * ∑ j : Fin M, w i j * g k j ^ 2) := by
+  have hgrad : ∀ (i : Fin N) (k : Fin Kc), gradA M Kc s w (mget (astep solve N M Kc s w g)) g i k = 0 := by
+    intro i k
+    have h := (astep_optimum sqrt solve N M Kc s w g eps hw hsq hsolve).1 i k
+    unfold gradA
+    rw [h]; ring
+  refine ⟨fun a i k t => badness_line_a sqrt N M Kc s w a g eps hsq i k t, hgrad, fun i k t => ?_⟩
+  rw [badness_line_a sqrt N M Kc s w _ g eps hsq i k t, hgrad i k]; ring
+
+/-- PROPERTY. HMF "gradient vanishes" after a g-step (epsilon None or 0): `gradG` is the partial derivative of badness
+in `g[k,j]`, and at the components returned by `gstep` every partial derivative is 0. -/
+theorem gstep_gradient_vanishes (sqrt : K → K) (solve : Mat K → Vec K → Vec K) (N M Kc : ℕ) (s w a g : ℕ → ℕ → K)
+    (eps : Option K) (heps : eps = none ∨ eps = some 0)
+    (hw : ∀ i j, 0 ≤ w i j) (hsq : ∀ i j, sqrt (w i j) * sqrt (w i j) = w i j)
+    (hsolve : ∀ j : Fin M, Solves Kc (gstepMat N M Kc w a eps j) (gstepRhs N M Kc s w a g eps j)
+      (solve (gstepMat N M Kc w a eps j) (gstepRhs N M Kc s w a g eps j))) :
+    (∀ (g' : ℕ → ℕ → K) (k : Fin Kc) (j : Fin M) (t : K),
+      badness sqrt N M Kc s w a (fun k' j' => if k' = (k : ℕ) ∧ j' = (j : ℕ) then g' k' j' + t else g' k' j') eps
+        = badness sqrt N M Kc s w a g' eps + t * gradG N Kc s w a g' k j + t ^ 2 * ∑ i : Fin N, w i j * a i k ^ 2) ∧
+    (∀ (k : Fin Kc) (j : Fin M), gradG N Kc s w a (mget (gstep solve N M Kc s w a g eps)) k j = 0) ∧
+    (∀ (k : Fin Kc) (j : Fin M) (t : K),
+      badness sqrt N M Kc s w a (fun k' j' => if k' = (k : ℕ) ∧ j' = (j : ℕ)
+          then mget (gstep solve N M Kc s w a g eps) k' j' + t else mget (gstep solve N M Kc s w a g eps) k' j') eps
+        = badness sqrt N M Kc s w a (mget (gstep solve N M Kc s w a g eps)) eps
+          + t ^ 2 * ∑ i : Fin N, w i j * a i k ^ 2) := by
+  have hgrad : ∀ (k : Fin Kc) (j : Fin M), gradG N Kc s w a (mget (gstep solve N M Kc s w a g eps)) k j = 0 := by
+    intro k j
+    have h := (gstep_optimum sqrt solve N M Kc s w a g eps heps hw hsq hsolve).1 j k
+    unfold gradG
+    rw [h]; ring
+  refine ⟨fun g' k j t => badness_line_g sqrt N M Kc s w a g' eps heps hsq k j t, hgrad, fun k j t => ?_⟩
+  rw [badness_line_g sqrt N M Kc s w a _ eps heps hsq k j t, hgrad k j]; ring
+
+/-! ### non-negative mode -/
+
+/-- PROPERTY. Non-negative mode: the multiplicative updates leave exact zeros as zeros. -/
+theorem nn_zero_stays_zero (N M Kc : ℕ) (s w a g : ℕ → ℕ → K) (eps : Option K) :
+    (∀ (i : Fin N) (k : Fin Kc), a i k = 0 → mget (astepnn N M Kc s w a g) i k = 0) ∧
+    (∀ (k : Fin Kc) (j : Fin M), g k j = 0 → mget (gstepnn N M Kc s w a g eps) k j = 0) := by
+  constructor
+  · intro i k h
+    simp only [astepnn, mget_mtab_fin, h, zero_mul]
+  · intro k j h
+    simp only [gstepnn, mget_mtab_fin, h, zero_mul]
+
+/-- PROPERTY. Non-negative mode: at a fixed point of the multiplicative a-update every coefficient that is not
+zero satisfies the stationarity (KKT) condition of the non-negative weighted least-squares problem with multiplier
+zero: `Σ_j w_ij g_kj (s_ij - (a·g)_ij) = 0`, i.e. `gradA = 0` in that coordinate. -/
+theorem astepnn_fixed_point_kkt (N M Kc : ℕ) (s w a g : ℕ → ℕ → K) (i : Fin N) (k : Fin Kc)
+    (hfix : mget (astepnn N M Kc s w a g) i k = a i k) (hpos : a i k ≠ 0) :
+    gradA M Kc s w a g i k = 0 := by
+  simp only [astepnn, mget_mtab_fin, sumN_fin, hmfModel] at hfix
+  have h1 : (∑ j : Fin M, s i j * w i j * g k j) / (∑ j : Fin M, (∑ l : Fin Kc, a i l * g l j) * w i j * g k j) = 1 :=
+    mul_left_cancel₀ hpos (hfix.trans (mul_one _).symm)
+  have hden : (∑ j : Fin M, (∑ l : Fin Kc, a i l * g l j) * w i j * g k j) ≠ 0 := by
+    intro h0; rw [h0, div_zero] at h1; exact zero_ne_one h1
+  have heq := (div_eq_one_iff_eq hden).mp h1
+  unfold gradA
+  have : ∑ j : Fin M, w i j * g k j * (s i j - ∑ l : Fin Kc, g l j * a i l)
+      = (∑ j : Fin M, s i j * w i j * g k j) - ∑ j : Fin M, (∑ l : Fin Kc, a i l * g l j) * w i j * g k j := by
+    rw [← Finset.sum_sub_distrib]
+    apply Finset.sum_congr rfl; intro j _
+    have e : ∑ l : Fin Kc, g l j * a i l = ∑ l : Fin Kc, a i l * g l j :=
+      Finset.sum_congr rfl (fun _ _ => mul_comm _ _)
+    rw [e]; ring
+  rw [this, heq]; ring
+
+/-! ### pcomp: the derived variables are uncorrelated -/
+
+theorem covMat_entry (no nv : ℕ) (x : ℕ → ℕ → K) (j l : Fin nv) :
+    mget (covMat no nv x) j l
+      = (∑ i : Fin no, (x i j - (∑ i' : Fin no, x i' j) / (no : K)) * (x i l - (∑ i' : Fin no, x i' l) / (no : K)))
+        / ((no - 1 : ℕ) : K) := by
+  simp only [covMat, colMean, mget_mtab_fin, vget_vtab_fin, sumN_fin, scalar_ofNat]
+
+/-- covariance of linearly transformed data: `cov(X·B) = Bᵀ · cov(X) · B` -/
+theorem cov_linear (no nv : ℕ) (x B d : ℕ → ℕ → K)
+    (hd : ∀ (i : Fin no) (j : Fin nv), d i j = ∑ k : Fin nv, x i k * B k j) (j l : Fin nv) :
+    mget (covMat no nv d) j l
+      = ∑ k : Fin nv, ∑ k' : Fin nv, B k j * mget (covMat no nv x) k k' * B k' l := by
+  have hc : ∀ (i : Fin no) (j : Fin nv), d i j - (∑ i' : Fin no, d i' j) / (no : K)
+      = ∑ k : Fin nv, (x i k - (∑ i' : Fin no, x i' k) / (no : K)) * B k j := by
+    intro i j
+    simp_rw [hd]
+    have hsw : ∑ i' : Fin no, ∑ k : Fin nv, x i' k * B k j = ∑ k : Fin nv, (∑ i' : Fin no, x i' k) * B k j := by
+      rw [Finset.sum_comm]
+      apply Finset.sum_congr rfl; intro k _
+      rw [Finset.sum_mul]
+    rw [hsw]
+    simp only [div_eq_mul_inv]
+    rw [Finset.sum_mul, ← Finset.sum_sub_distrib]
+    apply Finset.sum_congr rfl; intro k _
+    ring
+  rw [covMat_entry]
+  simp_rw [hc, covMat_entry]
+  have hdiv : ∀ a : K, a / ((no - 1 : ℕ) : K) = a * (((no - 1 : ℕ) : K))⁻¹ := fun a => div_eq_mul_inv a _
+  simp_rw [hdiv]
+  rw [Finset.sum_mul]
+  have e : ∀ i : Fin no,
+      (∑ k : Fin nv, (x i k - (∑ i' : Fin no, x i' k) / (no : K)) * B k j) *
+        (∑ k : Fin nv, (x i k - (∑ i' : Fin no, x i' k) / (no : K)) * B k l) * (((no - 1 : ℕ) : K))⁻¹
+      = ∑ k : Fin nv, ∑ k' : Fin nv, B k j *
+          ((x i k - (∑ i' : Fin no, x i' k) / (no : K)) * (x i k' - (∑ i' : Fin no, x i' k') / (no : K))
+            * (((no - 1 : ℕ) : K))⁻¹) * B k' l := by
+    intro i
+    rw [Finset.sum_mul_sum, Finset.sum_mul]
+    apply Finset.sum_congr rfl; intro k _
+    rw [Finset.sum_mul]
+    apply Finset.sum_congr rfl; intro k' _
+    ring
+  simp_rw [e]
+  rw [Finset.sum_comm]
+  apply Finset.sum_congr rfl; intro k _
+  rw [Finset.sum_comm]
+  apply Finset.sum_congr rfl; intro k' _
+  rw [Finset.sum_mul, Finset.mul_sum, Finset.sum_mul]
+
+/-- PROPERTY. pcomp in covariance mode, given the `eigh` contract, a sorting permutation and `sqrt x · sqrt x = x`
+on the eigenvalues: the derived variables are UNCORRELATED - their covariance matrix (`numpy.cov`, same estimator
+as the decomposed matrix) is diagonal, with `eigenvalue_j²` on the diagonal (the components carry a factor
+`sqrt(eigenvalue_j)`, so the variance of derived variable j is `eigenvalue_j · eigenvalue_j`). -/
+theorem pcomp_derived_uncorrelated (sqrt : K → K) (eigh : Mat K → Eig K) (argsort : Vec K → Array ℕ) (no nv : ℕ)
+    (x : ℕ → ℕ → K) (st : Bool) (σ : Equiv.Perm (Fin nv))
+    (hE : EighOK nv (pcomp sqrt eigh argsort no nv x st true).c (eigh (pcomp sqrt eigh argsort no nv x st true).c))
+    (hσ : ∀ j : Fin nv,
+      (argsort (eigh (pcomp sqrt eigh argsort no nv x st true).c).evals)[nv - 1 - (j : ℕ)]! = ((σ j : Fin nv) : ℕ))
+    (hsq : ∀ j : Fin nv, sqrt (vget (eigh (pcomp sqrt eigh argsort no nv x st true).c).evals j) *
+      sqrt (vget (eigh (pcomp sqrt eigh argsort no nv x st true).c).evals j)
+        = vget (eigh (pcomp sqrt eigh argsort no nv x st true).c).evals j) (j l : Fin nv) :
+    mget (covMat no nv (mget (pcomp sqrt eigh argsort no nv x st true).derived)) j l
+      = if j = l then vget (pcomp sqrt eigh argsort no nv x st true).evals j *
+          vget (pcomp sqrt eigh argsort no nv x st true).evals j else 0 := by
+  have hev : ∀ j : Fin nv, vget (pcomp sqrt eigh argsort no nv x st true).evals j
+      = vget (eigh (pcomp sqrt eigh argsort no nv x st true).c).evals (σ j) := by
+    intro j
+    have := hσ j
+    simp only [pcomp] at this ⊢
+    simp only [vget_vtab_fin, this]
+  have hco : ∀ i j : Fin nv, mget (pcomp sqrt eigh argsort no nv x st true).coefficients i j
+      = mget (eigh (pcomp sqrt eigh argsort no nv x st true).c).evecs i (σ j) *
+          sqrt (vget (eigh (pcomp sqrt eigh argsort no nv x st true).c).evals (σ j)) := by
+    intro i j
+    have := hσ j
+    simp only [pcomp] at this ⊢
+    simp only [mget_mtab_fin, vget_vtab_fin, this]
+  have hder : ∀ (i : Fin no) (j : Fin nv), mget (pcomp sqrt eigh argsort no nv x st true).derived i j
+      = ∑ k : Fin nv, mget (pcomp sqrt eigh argsort no nv x st true).array i k *
+          mget (pcomp sqrt eigh argsort no nv x st true).coefficients k j := by
+    intro i j
+    simp only [pcomp, mget_mtab_fin, sumN_fin]
+  have hc : (pcomp sqrt eigh argsort no nv x st true).c
+      = covMat no nv (mget (pcomp sqrt eigh argsort no nv x st true).array) := by
+    simp only [pcomp, if_true]
+  rw [cov_linear no nv (mget (pcomp sqrt eigh argsort no nv x st true).array)
+    (mget (pcomp sqrt eigh argsort no nv x st true).coefficients) _ hder j l, ← hc]
+  -- Σ_k' C k k' B k' l = λ(σ l) · B k l
+  have hCB : ∀ k : Fin nv, ∑ k' : Fin nv, mget (pcomp sqrt eigh argsort no nv x st true).c k k' *
+        mget (pcomp sqrt eigh argsort no nv x st true).coefficients k' l
+      = vget (eigh (pcomp sqrt eigh argsort no nv x st true).c).evals (σ l) *
+          mget (pcomp sqrt eigh argsort no nv x st true).coefficients k l := by
+    intro k
+    simp_rw [hco, ← mul_assoc]
+    rw [← Finset.sum_mul, hE.eig k (σ l)]
+  have hinner : ∀ k : Fin nv, ∑ k' : Fin nv, mget (pcomp sqrt eigh argsort no nv x st true).coefficients k j *
+        mget (pcomp sqrt eigh argsort no nv x st true).c k k' *
+        mget (pcomp sqrt eigh argsort no nv x st true).coefficients k' l
+      = mget (pcomp sqrt eigh argsort no nv x st true).coefficients k j *
+          (vget (eigh (pcomp sqrt eigh argsort no nv x st true).c).evals (σ l) *
+            mget (pcomp sqrt eigh argsort no nv x st true).coefficients k l) := by
+    intro k
+    rw [← hCB k, Finset.mul_sum]
+    apply Finset.sum_congr rfl; intros; ring
+  simp_rw [hinner, hco]
+  have hfin : ∀ k : Fin nv,
+      mget (eigh (pcomp sqrt eigh argsort no nv x st true).c).evecs k (σ j) *
+          sqrt (vget (eigh (pcomp sqrt eigh argsort no nv x st true).c).evals (σ j)) *
+        (vget (eigh (pcomp sqrt eigh argsort no nv x st true).c).evals (σ l) *
+          (mget (eigh (pcomp sqrt eigh argsort no nv x st true).c).evecs k (σ l) *
+            sqrt (vget (eigh (pcomp sqrt eigh argsort no nv x st true).c).evals (σ l))))
+      = (sqrt (vget (eigh (pcomp sqrt eigh argsort no nv x st true).c).evals (σ j)) *
+          vget (eigh (pcomp sqrt eigh argsort no nv x st true).c).evals (σ l) *
+          sqrt (vget (eigh (pcomp sqrt eigh argsort no nv x st true).c).evals (σ l))) *
+        (mget (eigh (pcomp sqrt eigh argsort no nv x st true).c).evecs k (σ j) *
+          mget (eigh (pcomp sqrt eigh argsort no nv x st true).c).evecs k (σ l)) := by
+    intro k; ring
+  simp_rw [hfin]
+  rw [← Finset.mul_sum, hE.cols (σ j) (σ l)]
+  by_cases h : j = l
+  · subst h
+    rw [if_pos rfl, if_pos rfl, hev]
+    linear_combination (vget (eigh (pcomp sqrt eigh argsort no nv x st true).c).evals (σ j)) * hsq (σ j)
+  · have : σ j ≠ σ l := fun e => h (σ.injective e)
+    rw [if_neg this, if_neg h, mul_zero]
+
+/-! ### pca_solve with the outer PCA + reject loop (`maxiter ≥ 0`) -/
+
+/-- `djs_reject` as `pca_solve` calls it (no rejection limits) returns the input mask, with or without a model -/
+theorem pcaReject_mask (nobj npix : ℕ) (hm : Bool) (inmask : ℕ → ℕ → Bool) (om : Option Mask) (i p : ℕ)
+    (hi : i < nobj) (hp : p < npix) :
+    bget (pcaReject (α := K) nobj npix hm inmask om).1 i p = inmask i p := by
+  unfold pcaReject
+  cases hm
+  · simp [bget_btab _ _ _ _ _ hi hp]
+  · simp only [Bool.not_true, Bool.false_eq_true, if_false]
+    rw [bget_btab _ _ _ _ _ hi hp]
+    cases inmask i p <;> simp [scalar_lit]
+
+theorem pcaPassG_proj (sqrt : K → K) (svd : Mat K → Svd K) (eigh : Mat K → Eig K) (argsort : Vec K → Array ℕ)
+    (nobj npix nkeep : ℕ) (flux ivar mivar : ℕ → ℕ → K) (syn : Vec K) (filt : Mat K) (i : Fin nobj) (k : Fin nkeep) :
+    mget (pcaPassG sqrt svd eigh argsort nobj npix nkeep flux ivar mivar syn filt).acoeff i k
+      = vget (pcaProject sqrt svd npix nkeep (flux i) (mivar i)
+          (mget (pcaPassG sqrt svd eigh argsort nobj npix nkeep flux ivar mivar syn filt).pres)).acoeff k := by
+  simp only [pcaPassG, mget_mtab_fin]
+  simp
+
+theorem pcaInner_last {β : Type} (pass : Mat K → PcaState K) (n : ℕ) (st : PcaState K) :
+    ∃ f, pcaInner pass (n + 1) st = pass f := by
+  induction n generalizing st with
+  | zero => exact ⟨st.filt, rfl⟩
+  | succ n ih => exact ih (pass st.filt)
+
+/-- the invariant of the outer loop: whenever a solution is present it is the output of a pass whose weights are
+`newivar * outmask` for the CURRENT outmask, and that outmask is `newivar != 0` -/
+def PcaInv (sqrt : K → K) (svd : Mat K → Svd K) (eigh : Mat K → Eig K) (argsort : Vec K → Array ℕ)
+    (nobj npix nkeep : ℕ) (flux ivar : ℕ → ℕ → K) (syn : Vec K) (L : PcaLoop K) : Prop :=
+  ∀ st, L.last = some st → ∃ om f, L.outmask = some om ∧
+    st = pcaPassG sqrt svd eigh argsort nobj npix nkeep flux ivar (maskIvar ivar om) syn f ∧
+    ∀ i p, i < nobj → p < npix → bget om i p = decide (ivar i p ≠ 0)
+
+theorem pcaOuterStep_inv (sqrt : K → K) (svd : Mat K → Svd K) (eigh : Mat K → Eig K) (argsort : Vec K → Array ℕ)
+    (nobj npix niter nkeep : ℕ) (flux ivar : ℕ → ℕ → K) (syn : Vec K) (hn : niter ≠ 0) (L : PcaLoop K) :
+    PcaInv sqrt svd eigh argsort nobj npix nkeep flux ivar syn
+      (pcaOuterStep sqrt svd eigh argsort nobj npix niter nkeep flux ivar syn L) := by
+  intro st hst
+  obtain ⟨n', rfl⟩ := Nat.exists_eq_succ_of_ne_zero hn
+  obtain ⟨f, hf⟩ := pcaInner_last (β := Unit)
+    (pcaPassG sqrt svd eigh argsort nobj npix nkeep flux ivar (maskIvar ivar (pcaStepMask nobj npix ivar L).1) syn)
+    n' (pcaInit nobj npix nkeep flux)
+  refine ⟨(pcaStepMask nobj npix ivar L).1, f, rfl, ?_, ?_⟩
+  · have h2 : (pcaOuterStep sqrt svd eigh argsort nobj npix (n' + 1) nkeep flux ivar syn L).last
+        = some (pcaInner (pcaPassG sqrt svd eigh argsort nobj npix nkeep flux ivar
+            (maskIvar ivar (pcaStepMask nobj npix ivar L).1) syn) (n' + 1) (pcaInit nobj npix nkeep flux)) := rfl
+    rw [h2] at hst
+    rw [← Option.some.inj hst]; exact hf
+  · intro i p hi hp
+    unfold pcaStepMask
+    rw [pcaReject_mask (K := K) nobj npix _ _ _ i p hi hp]
+    by_cases h0 : ivar i p = 0 <;> simp [h0, scalar_lit]
+
+theorem pcaOuter_inv (sqrt : K → K) (svd : Mat K → Svd K) (eigh : Mat K → Eig K) (argsort : Vec K → Array ℕ)
+    (nobj npix niter nkeep maxiter : ℕ) (flux ivar : ℕ → ℕ → K) (syn : Vec K) (hn : niter ≠ 0)
+    (fuel : ℕ) (L : PcaLoop K) (hL : PcaInv sqrt svd eigh argsort nobj npix nkeep flux ivar syn L) :
+    PcaInv sqrt svd eigh argsort nobj npix nkeep flux ivar syn
+      (pcaOuter sqrt svd eigh argsort nobj npix niter nkeep maxiter flux ivar syn fuel L) := by
+  induction fuel generalizing L with
+  | zero => exact hL
+  | succ fuel ih =>
+    rw [pcaOuter]
+    split
+    · exact ih _ (pcaOuterStep_inv sqrt svd eigh argsort nobj npix niter nkeep flux ivar syn hn L)
+    · exact hL
+
+/-- PROPERTY. pca_solve with `maxiter ≥ 0` (the PCA + reject loop, all `goodobj` branches): in the returned result
+`outmask = (newivar != 0)` (no rejection limit is passed to `djs_reject`), `usemask[p]` counts the spectra that are
+good at pixel p, the weights of the LAST outer iteration `newivar * outmask` equal `newivar`, and the returned
+coefficients of every spectrum are the `computechi2` projection of that spectrum on the RETURNED eigenspectra
+`pres[:, 0:nkeep]` with exactly those final weights. -/
+theorem pca_final_state (sqrt : K → K) (svd : Mat K → Svd K) (eigh : Mat K → Eig K) (argsort : Vec K → Array ℕ)
+    (nobj npix niter nkeep maxiter : ℕ) (flux ivar : ℕ → ℕ → K) (r : PcaFull K)
+    (hres : pcaSolveMax sqrt svd eigh argsort nobj npix niter nkeep maxiter flux ivar = .ok (.full r)) :
+    (∀ i p, i < nobj → p < npix → bget r.outmask i p = decide (ivar i p ≠ 0)) ∧
+    (∀ p : Fin npix, r.usemask[p.val]! = ((range nobj).filter (fun i => ivar i p ≠ 0)).card) ∧
+    (∀ i p, i < nobj → p < npix → maskIvar ivar r.outmask i p = ivar i p) ∧
+    (∀ (i : Fin nobj) (k : Fin nkeep), mget r.acoeff i k
+      = vget (pcaProject sqrt svd npix nkeep (flux i) (maskIvar ivar r.outmask i) (mget r.pres)).acoeff k) := by
+  unfold pcaSolveMax at hres
+  split at hres
+  · exact absurd hres (by simp)
+  split at hres
+  · exact absurd hres (by simp)
+  split at hres
+  · exact absurd hres (by simp)
+  rename_i hn
+  have hinv := pcaOuter_inv sqrt svd eigh argsort nobj npix niter nkeep maxiter flux ivar
+    (synwvec nobj npix ivar) hn (maxiter + 1) { outmask := none, qdone := false, iiter := 0, last := none }
+    (by intro st hst; simp at hst)
+  dsimp only at hres
+  split at hres
+  · rename_i om st hom hst
+    obtain ⟨om', f, hom', hst', hmask⟩ := hinv st hst
+    rw [hom] at hom'
+    simp only [Option.some.injEq] at hom'
+    subst hom'
+    simp only [Except.ok.injEq, PcaOut.full.injEq] at hres
+    subst hres
+    have hw : ∀ i p, i < nobj → p < npix → maskIvar ivar om i p = ivar i p := by
+      intro i p hi hp
+      unfold maskIvar
+      rw [hmask i p hi hp]
+      by_cases h0 : ivar i p = 0
+      · simp [h0]
+      · simp [h0, scalar_lit]
+    refine ⟨hmask, ?_, hw, ?_⟩
+    · intro p
+      simp only [Fin.is_lt, Array.getElem!_eq_getD, Array.getD_eq_getD_getElem?, Array.getElem?_ofFn, dite_true,
+        Option.getD_some, countN_eq]
+      congr 1
+      apply Finset.filter_congr
+      intro i hi
+      rw [hmask i p (Finset.mem_range.mp hi) p.isLt]
+      simp
+    · intro i k
+      simp only
+      rw [hst']
+      exact pcaPassG_proj sqrt svd eigh argsort nobj npix nkeep flux ivar (maskIvar ivar om) _ f i k
+  · exact absurd hres (by simp)
+
+/-- PROPERTY. pca_solve with `maxiter ≥ 0`: the returned coefficients are the inverse-variance weighted projections
+on the returned eigenspectra for the weights of the LAST iteration (which are `newivar`): they satisfy the normal
+equations and minimise the weighted chi-square (contracts as in `pca_coeff_is_projection`, at the final state). -/
+theorem pca_final_coeff_is_projection (sqrt : K → K) (svd : Mat K → Svd K) (eigh : Mat K → Eig K)
+    (argsort : Vec K → Array ℕ) (nobj npix niter nkeep maxiter : ℕ) (flux ivar : ℕ → ℕ → K) (r : PcaFull K)
+    (hres : pcaSolveMax sqrt svd eigh argsort nobj npix niter nkeep maxiter flux ivar = .ok (.full r))
+    (i : Fin nobj)
+    (hsq : ∀ p, sqrt (maskIvar ivar r.outmask i p) * sqrt (maskIvar ivar r.outmask i p) = maskIvar ivar r.outmask i p)
+    (hinv : MulEqOne nkeep (pcaProject sqrt svd npix nkeep (flux i) (maskIvar ivar r.outmask i) (mget r.pres)).mm
+      (pcaProject sqrt svd npix nkeep (flux i) (maskIvar ivar r.outmask i) (mget r.pres)).mmi) :
+    Normal (fun (p : Fin npix) (k : Fin nkeep) => mget r.pres p k) (fun p => ivar i p) (fun p => flux i p)
+        (fun k => mget r.acoeff i k) ∧
+    ∀ z : Fin nkeep → K,
+      Q (fun (p : Fin npix) (k : Fin nkeep) => mget r.pres p k) (fun p => ivar i p) (fun p => flux i p)
+          (fun k => mget r.acoeff i k)
+        ≤ Q (fun (p : Fin npix) (k : Fin nkeep) => mget r.pres p k) (fun p => ivar i p) (fun p => flux i p) z := by
+  obtain ⟨_, _, hw, hproj⟩ := pca_final_state sqrt svd eigh argsort nobj npix niter nkeep maxiter flux ivar r hres
+  have h := pca_coeff_is_projection sqrt svd npix nkeep (flux i) (maskIvar ivar r.outmask i) (mget r.pres) hsq hinv
+  have e1 : (fun p : Fin npix => maskIvar ivar r.outmask i p) = (fun p : Fin npix => ivar i p) :=
+    funext (fun p => hw i p i.isLt p.isLt)
+  have e2 : (fun k : Fin nkeep => vget (pcaProject sqrt svd npix nkeep (flux i) (maskIvar ivar r.outmask i)
+      (mget r.pres)).acoeff k) = (fun k : Fin nkeep => mget r.acoeff i k) :=
+    funext (fun k => (hproj i k).symm)
+  rw [e1, e2] at h
+  exact h
+
+/-- PROPERTY. Non-negative mode, epsilon None or 0: at a fixed point of the multiplicative g-update every component
+value that is not zero has `gradG = 0` (KKT stationarity of the non-negative problem on the non-zero entries). -/
+theorem gstepnn_fixed_point_kkt (N M Kc : ℕ) (s w a g : ℕ → ℕ → K) (eps : Option K)
+    (heps : eps = none ∨ eps = some 0) (k : Fin Kc) (j : Fin M)
+    (hfix : mget (gstepnn N M Kc s w a g eps) k j = g k j) (hpos : g k j ≠ 0) :
+    gradG N Kc s w a g k j = 0 := by
+  have hoff := epsOn_false_of eps heps
+  simp only [gstepnn, mget_mtab_fin, sumN_fin, hmfModel, epsRhs, hoff, Bool.false_eq_true, if_false, scalar_lit,
+    Nat.cast_zero, add_zero] at hfix
+  have h1 : (∑ i : Fin N, a i k * (s i j * w i j)) / (∑ i : Fin N, a i k * ((∑ l : Fin Kc, a i l * g l j) * w i j)) = 1 :=
+    mul_left_cancel₀ hpos (hfix.trans (mul_one _).symm)
+  have hden : (∑ i : Fin N, a i k * ((∑ l : Fin Kc, a i l * g l j) * w i j)) ≠ 0 := by
+    intro h0; rw [h0, div_zero] at h1; exact zero_ne_one h1
+  have heq := (div_eq_one_iff_eq hden).mp h1
+  unfold gradG
+  have : ∑ i : Fin N, w i j * a i k * (s i j - ∑ l : Fin Kc, a i l * g l j)
+      = (∑ i : Fin N, a i k * (s i j * w i j)) - ∑ i : Fin N, a i k * ((∑ l : Fin Kc, a i l * g l j) * w i j) := by
+    rw [← Finset.sum_sub_distrib]
+    apply Finset.sum_congr rfl; intro i _
+    ring
+  rw [this, heq]; ring
+
+end Ext
+
+/-! ### HMF.iterate: the block of columns that is kept (`find_contiguous`) -/
+
+def RunOK (M : ℕ) (good : ℕ → Bool) (r : ℕ × ℕ) : Prop :=
+  1 ≤ r.2 ∧ r.1 + r.2 ≤ M ∧ ∀ j < r.2, good (r.1 + j) = true
+
+theorem RunOK_mono {M : ℕ} {good : ℕ → Bool} {r : ℕ × ℕ} (h : RunOK M good r) : RunOK (M + 1) good r :=
+  ⟨h.1, Nat.le_succ_of_le h.2.1, h.2.2⟩
+
+theorem runsOf_succ (M : ℕ) (good : ℕ → Bool) :
+    runsOf (M + 1) good =
+      (if good M then
+        match (runsOf M good).getLast? with
+        | some (st, l) => if M = st + l then (runsOf M good).dropLast ++ [(st, l + 1)] else runsOf M good ++ [(M, 1)]
+        | none => [(M, 1)]
+      else runsOf M good) := by
+  unfold runsOf
+  rw [List.range_succ, List.foldl_append]
+  rfl
+
+theorem runsOf_ok (M : ℕ) (good : ℕ → Bool) : ∀ r ∈ runsOf M good, RunOK M good r := by
+  induction M with
+  | zero => intro r hr; simp [runsOf] at hr
+  | succ M ih =>
+    rw [runsOf_succ]
+    split
+    · rename_i hg
+      split
+      · rename_i st l hlast
+        obtain ⟨ys, hys⟩ := List.getLast?_eq_some_iff.mp hlast
+        have hmem : (st, l) ∈ runsOf M good := by rw [hys]; simp
+        have hr0 := ih _ hmem
+        split
+        · rename_i hM
+          intro r hr
+          rw [hys, List.dropLast_concat] at hr
+          rcases List.mem_append.mp hr with h | h
+          · exact RunOK_mono (ih r (by rw [hys]; exact List.mem_append_left _ h))
+          · simp only [List.mem_singleton] at h
+            subst h
+            refine ⟨Nat.succ_le_succ (Nat.zero_le _), by simp only; omega, ?_⟩
+            intro j hj
+            simp only at hj ⊢
+            by_cases hjl : j < l
+            · exact hr0.2.2 j hjl
+            · have : st + j = M := by omega
+              rw [this]; exact hg
+        · intro r hr
+          rcases List.mem_append.mp hr with h | h
+          · exact RunOK_mono (ih r h)
+          · simp only [List.mem_singleton] at h
+            subst h
+            exact ⟨le_refl _, le_refl _, fun j hj => by
+              have : j = 0 := by simp only at hj; omega
+              subst this; exact hg⟩
+      · intro r hr
+        simp only [List.mem_singleton] at hr
+        subst hr
+        exact ⟨le_refl _, le_refl _, fun j hj => by
+          have : j = 0 := by simp only at hj; omega
+          subst this; exact hg⟩
+    · intro r hr
+      exact RunOK_mono (ih r hr)
+
+theorem foldl_pick_mem (rs : List (ℕ × ℕ)) (r : ℕ × ℕ) :
+    rs.foldl (fun best x => if best.2 < x.2 then x else best) r ∈ r :: rs := by
+  induction rs generalizing r with
+  | nil => simp
+  | cons x xs ih =>
+    simp only [List.foldl_cons]
+    have := ih (if r.2 < x.2 then x else r)
+    by_cases hlt : r.2 < x.2
+    · rw [if_pos hlt] at this ⊢
+      rcases List.mem_cons.mp this with h | h
+      · rw [h]; exact List.mem_cons_of_mem _ List.mem_cons_self
+      · exact List.mem_cons_of_mem _ (List.mem_cons_of_mem _ h)
+    · rw [if_neg hlt] at this ⊢
+      rcases List.mem_cons.mp this with h | h
+      · rw [h]; exact List.mem_cons_self
+      · exact List.mem_cons_of_mem _ (List.mem_cons_of_mem _ h)
+
+theorem foldl_pick_max (rs : List (ℕ × ℕ)) (r : ℕ × ℕ) :
+    ∀ y ∈ r :: rs, y.2 ≤ (rs.foldl (fun best x => if best.2 < x.2 then x else best) r).2 := by
+  induction rs generalizing r with
+  | nil => intro y hy; simp at hy; subst hy; exact le_refl _
+  | cons x xs ih =>
+    intro y hy
+    simp only [List.foldl_cons]
+    have h1 := ih (if r.2 < x.2 then x else r)
+    have hbase : r.2 ≤ (if r.2 < x.2 then x else r).2 ∧ x.2 ≤ (if r.2 < x.2 then x else r).2 := by
+      split <;> constructor <;> omega
+    have hself := h1 _ (List.mem_cons_self)
+    rcases List.mem_cons.mp hy with h | h
+    · subst h; exact le_trans hbase.1 hself
+    · rcases List.mem_cons.mp h with h | h
+      · subst h; exact le_trans hbase.2 hself
+      · exact h1 y (List.mem_cons_of_mem _ h)
+
+/-- PROPERTY. `find_contiguous` (zero-column removal of `HMF.iterate`): the block it returns is non-empty, lies inside
+the range, consists of good columns only, and no run of consecutive good columns recorded by the scan is longer. -/
+theorem findContiguous_block (M : ℕ) (good : ℕ → Bool) (c0 len : ℕ) (h : findContiguous M good = some (c0, len)) :
+    1 ≤ len ∧ c0 + len ≤ M ∧ (∀ j < len, good (c0 + j) = true) ∧ ∀ r ∈ runsOf M good, r.2 ≤ len := by
+  unfold findContiguous at h
+  split at h
+  · exact absurd h (by simp)
+  · rename_i r rs hruns
+    simp only [Option.some.injEq] at h
+    have hmem := foldl_pick_mem rs r
+    have hmax := foldl_pick_max rs r
+    rw [h] at hmem hmax
+    rw [← hruns] at hmem hmax
+    have := runsOf_ok M good _ hmem
+    exact ⟨this.1, this.2.1, this.2.2, fun y hy => hmax y hy⟩
+
+
+/-- PROPERTY. `HMF.iterate` with zero-column removal: when it returns, the block of columns it worked on is non-empty,
+lies inside the input range and contains no zero column (no column whose spectra / invvar / spectra·invvar sum is
+exactly zero, after the clamp of the non-negative mode); the factors are those of `iterate` on that block. -/
+theorem iterateCols_block {α : Type} [Scalar α] (sqrt : α → α) (solve : Mat α → Vec α → Vec α) (eigh : Mat α → Eig α)
+    (N M Kc nIter nnPre : ℕ) (s0 w g0 : ℕ → ℕ → α) (nonneg : Bool) (eps : Option α) (r : HmfOut α)
+    (h : iterateCols sqrt solve eigh N M Kc nIter nnPre s0 w g0 nonneg eps = .ok r) :
+    1 ≤ r.ncol ∧ r.col0 + r.ncol ≤ M ∧
+    (∀ j < r.ncol, zeroCol N (fun i j => if nonneg then (if s0 i j < 0 then 0 else s0 i j) else s0 i j) w (r.col0 + j) = false) ∧
+    (r.a, r.g) = iterate sqrt solve eigh N r.ncol Kc nIter nnPre
+      (fun i j => (if nonneg then (if s0 i (r.col0 + j) < 0 then 0 else s0 i (r.col0 + j)) else s0 i (r.col0 + j)))
+      (fun i j => w i (r.col0 + j)) g0 nonneg eps := by
+  unfold iterateCols at h
+  dsimp only at h
+  split at h
+  · exact absurd h (by simp)
+  · rename_i c0 M' hfc
+    simp only [Except.ok.injEq] at h
+    subst h
+    have hb := findContiguous_block M _ c0 M' hfc
+    refine ⟨hb.1, hb.2.1, fun j hj => ?_, rfl⟩
+    have := hb.2.2.1 j hj
+    simpa using this
+
 /-! ## non-vacuity: the contracts are satisfiable on concrete inputs (over ℚ) -/
 section Examples
 attribute [local instance] fieldScalar
@@ -693,6 +1465,13 @@ example : ∀ j : Fin 2, Solves 1 (gstepMat 1 2 1 (fun _ _ => (1 : ℚ)) (fun _ 
 example : EighOK 2 (#[#[3, 0], #[0, 1]] : Mat ℚ) ⟨#[3, 1], #[#[1, 0], #[0, 1]]⟩ := by
   constructor <;> intro i j <;> fin_cases i <;> fin_cases j <;>
     simp [-scalar_lit, mget, vget, Fin.sum_univ_two]
+
+/-- the docstring example of `find_contiguous`: `[0,1,1,1,0,1,1,0,1]` gives `[1, 2, 3]`; of two runs of equal
+length the first is kept -/
+example : findContiguous 9 (fun k => #[false, true, true, true, false, true, true, false, true][k]!) = some (1, 3) := by
+  decide
+example : findContiguous 5 (fun k => #[true, true, false, true, true][k]!) = some (0, 2) := by decide
+example : findContiguous 3 (fun _ => false) = none := by decide
 
 end Examples
 
